@@ -371,9 +371,9 @@ func geEstablished(ins ssa.Instruction, a, b ssa.Value) bool {
 		var holds bool
 		switch bo.Op {
 		case token.GTR, token.GEQ: // X > Y
-			holds = viaTrue && same(bo.X, a) && same(bo.Y, b) || viaFalse && bo.Op == token.GTR && same(bo.X, b) && same(bo.Y, a)
+			holds = viaTrue && same(bo.X, a) && same(bo.Y, b) || viaFalse && same(bo.X, b) && same(bo.Y, a)
 		case token.LSS, token.LEQ: // X < Y
-			holds = viaTrue && same(bo.X, b) && same(bo.Y, a) || viaFalse && bo.Op == token.LSS && same(bo.X, a) && same(bo.Y, b)
+			holds = viaTrue && same(bo.X, b) && same(bo.Y, a) || viaFalse && same(bo.X, a) && same(bo.Y, b)
 		}
 		if holds {
 			return true
@@ -685,6 +685,21 @@ func rulePacketizerFields(c *Ctx) {
 			nKey, nInter := 0, 0
 			for _, s := range sts {
 				k, _ := evalInt(s.Val)
+				if phi, isPhi := stripConv(s.Val).(*ssa.Phi); isPhi {
+					// one store of a value chosen by an if/else: counts as the conditional key store and the inter store
+					ks := map[int64]bool{}
+					for _, e := range phi.Edges {
+						if kk, ok := evalInt(e); ok {
+							ks[kk] = true
+						}
+					}
+					if ks[1] && ks[2] && len(phi.Edges) == 2 {
+						nKey++
+						nInter++
+						c.OK(key("frametype-key-conditional"), p.InstrPos(s), "key-frame flag chosen under a test")
+						continue
+					}
+				}
 				if k == 1 {
 					nKey++
 					// must be conditional: block has a single predecessor ending in If
@@ -728,11 +743,35 @@ func keyConsts(fn *ssa.Function, isKeyMark func(ins ssa.Instruction) bool) (eq [
 			mark = ins
 		}
 	})
-	if mark == nil {
+	var blk *ssa.BasicBlock
+	if mark != nil {
+		blk = mark.Block()
+	} else {
+		// the mark may be chosen first and stored later: `x := inter; if test { x = key }` or an
+		// if/else assignment followed by one store of the phi - the marking block is then the
+		// predecessor that contributes the key value
+		instrs(fn, func(ins ssa.Instruction) {
+			st, ok := ins.(*ssa.Store)
+			if !ok || blk != nil {
+				return
+			}
+			f, _, ok := fieldAddr(st.Addr)
+			if !ok || f.Name() != "FrameType" {
+				return
+			}
+			if phi, ok := stripConv(st.Val).(*ssa.Phi); ok {
+				for i, e := range phi.Edges {
+					if k, ok := evalInt(e); ok && k == 1 {
+						blk = phi.Block().Preds[i]
+					}
+				}
+			}
+		})
+	}
+	if blk == nil {
 		return nil, -1, -1, false
 	}
 	// walk up through single-predecessor Ifs collecting comparisons on the taken edge
-	blk := mark.Block()
 	for i := 0; i < 4 && len(blk.Preds) == 1; i++ {
 		pr := blk.Preds[0]
 		ifi, isIf := pr.Instrs[len(pr.Instrs)-1].(*ssa.If)
